@@ -1,6 +1,11 @@
 import NomtModel.Api.ApiRollback
+import NomtModel.Api.ExecRollback
 /-!
-# C09 — Rollback restores exactly the state n commits ago  (first claim; Exec-level theorems follow)
+# C09 — Rollback restores exactly the state n commits ago
+
+Part A: the abstract model `Api/Api.lean` (function-valued maps, log oldest first).
+Part B: the executable model `Api/Exec.lean` (sorted lists, log newest first, bounded by `maxLog`);
+helper lemmas and the definitions `deltaOf`, `LogChain`, `LogInv`, `StInv` are in `Api/ExecRollback.lean`.
 -/
 namespace Nomt.C09
 open NomtApi
@@ -31,5 +36,85 @@ theorem T9_2_undo_chain (st0 fin : KV K V) (ds : List (Delta K V)) (h : Chain st
 
 example : Inv (K := Nat) (V := Nat) (R := Nat) { kv := fun _ => none, root := 0, log := [], seqn := 0 } :=
   ⟨fun _ => none, Chain.nil _⟩
+
+end Nomt.C09
+
+namespace Nomt.C09
+open Nomt Nomt.Api
+variable {Node VH : Type} [DecidableEq Node] [DecidableEq VH]
+
+/-- T9.4: the invariant `StInv` (the log, newest first, is a chain of reverse deltas of actual commits from
+a sorted state to the current values; no log without rollback) holds for an empty log and is kept by the
+state change of every commit whose delta is the priors of its writes — including the `maxLog` truncation —
+by blocking commits and overlay commits whatever their result. -/
+theorem T9_4_commits_keep_inv :
+    (∀ (s : St Node VH), KSorted s.kv → s.log = [] → StInv s) ∧
+    (∀ (s : St Node VH) (ws delta : Writes VH) (root : Node) (marker : Option Nat),
+      StInv s → delta = deltaOf s.kv ws → StInv (applyCommit s ws delta root marker)) ∧
+    (∀ (s : St Node VH) (fid : Nat), StInv s →
+      (∀ f, s.fins.find? (·.id == fid) = some f → f.delta = deltaOf s.kv f.writes) → StInv (commitFin s fid).2) ∧
+    (∀ (s : St Node VH) (oid : Nat), StInv s →
+      (∀ o, s.ov? oid = some o → o.delta = deltaOf s.kv o.changes) → StInv (commitOv s oid).2) :=
+  ⟨fun s hs hl => ⟨hl ▸ LogInv.nil hs, fun _ => hl⟩, applyCommit_stInv, commitFin_stInv, commitOv_stInv⟩
+
+/-- T9.5: in a state satisfying the invariant, `rollback n` with `0 < n ≤ log length` returns `ok`; the new
+values are — as a list — the state `mid` from which the `n` newest logged commits lead to the current
+values, i.e. the values `n` commits ago (`mid` is unique: T9.6); the root is the root of `mid`, the older
+log is kept and the invariant is preserved. -/
+theorem T9_5_rollback_restores_exec (H : Hasher Node VH) (s : St Node VH) (n : Nat) (hi : StInv s)
+    (hon : s.rollbackOn = true) (hn : 0 < n) (hle : n ≤ s.log.length) :
+    ∃ mid, KSorted mid ∧ LogChain mid (s.log.take n) s.kv ∧ LogInv mid (s.log.drop n) ∧
+      (rollback H s n).1 = .ok ∧ (rollback H s n).2.kv = mid ∧ (rollback H s n).2.root = rootOfKV H mid ∧
+      (rollback H s n).2.log = s.log.drop n ∧ StInv (rollback H s n).2 :=
+  rollback_restores_exec H s n hi hon hn hle
+
+/-- T9.6: *whatever* sorted state `mid` the `n` newest deltas lead from to the current values — in particular
+the committed values as they were `n` successful commits ago — is what `rollback n` restores. -/
+theorem T9_6_rollback_kv_unique (H : Hasher Node VH) (s : St Node VH) (n : Nat) (hon : s.rollbackOn = true)
+    (hn : 0 < n) (hle : n ≤ s.log.length) (mid : KVL VH) (hm : KSorted mid)
+    (hc : LogChain mid (s.log.take n) s.kv) : (rollback H s n).2.kv = mid :=
+  rollback_kv_unique H s n hon hn hle mid hm hc
+
+/-- T9.7: commit then `rollback 1` gives back the very same list of values (and its root) -/
+theorem T9_7_commit_rollback_one (H : Hasher Node VH) (s : St Node VH) (ws : Writes VH) (root : Node)
+    (marker : Option Nat) (hs : KSorted s.kv) (hon : s.rollbackOn = true) (hmax : 0 < s.maxLog) :
+    (rollback H (applyCommit s ws (deltaOf s.kv ws) root marker) 1).1 = .ok ∧
+    (rollback H (applyCommit s ws (deltaOf s.kv ws) root marker) 1).2.kv = s.kv ∧
+    (rollback H (applyCommit s ws (deltaOf s.kv ws) root marker) 1).2.root = rootOfKV H s.kv := by
+  have hlog : (applyCommit s ws (deltaOf s.kv ws) root marker).log = deltaOf s.kv ws :: s.log.take (s.maxLog - 1) := by
+    simp only [applyCommit, pushLog, hon, if_true]
+    obtain ⟨m, hm⟩ : ∃ m, s.maxLog = m + 1 := ⟨s.maxLog - 1, by omega⟩
+    rw [hm]; simp
+  obtain ⟨h1, h2, h3, _⟩ := rollback_ok_fields H (applyCommit s ws (deltaOf s.kv ws) root marker) 1 hon
+    (by omega) (by rw [hlog]; simp)
+  have hkv : (rollback H (applyCommit s ws (deltaOf s.kv ws) root marker) 1).2.kv = s.kv := by
+    rw [h2, hlog]
+    simp only [List.take_succ_cons, List.take_zero, traceback_cons]
+    show kvApply (kvApply s.kv ws) (deltaOf s.kv ws ++ traceback []) = s.kv
+    rw [show traceback ([] : List (Writes VH)) = [] from rfl, List.append_nil]
+    exact kvApply_deltaOf hs ws
+  exact ⟨h1, hkv, by rw [h3, ← h2, hkv]⟩
+
+/-- T9.8: `rollback k` then `rollback m` equals `rollback (k + m)` on values, root, log and overlay marker
+(only the sync sequence number differs: two syncs instead of one) -/
+theorem T9_8_rollback_compose (H : Hasher Node VH) (s : St Node VH) (k m : Nat) (hon : s.rollbackOn = true)
+    (hk : 0 < k) (hm : 0 < m) (hle : k + m ≤ s.log.length) :
+    (rollback H (rollback H s k).2 m).1 = .ok ∧ (rollback H s (k + m)).1 = .ok ∧
+    (rollback H (rollback H s k).2 m).2.kv = (rollback H s (k + m)).2.kv ∧
+    (rollback H (rollback H s k).2 m).2.root = (rollback H s (k + m)).2.root ∧
+    (rollback H (rollback H s k).2 m).2.log = (rollback H s (k + m)).2.log ∧
+    (rollback H (rollback H s k).2 m).2.lastMarker = (rollback H s (k + m)).2.lastMarker ∧
+    (rollback H (rollback H s k).2 m).2.seqn = (rollback H s (k + m)).2.seqn + 1 :=
+  rollback_rollback H s k m hon hk hm hle
+
+/-- non-vacuity (Exec): two commits on a sorted state satisfy the invariant with a log of length 2 -/
+example : StInv (Node := Nat) (VH := Nat)
+    (applyCommit (applyCommit { root := 0 } [([true], some 1)] (deltaOf [] [([true], some 1)]) 1 none)
+      [([true], none), ([false], some 2)] (deltaOf [([true], 1)] [([true], none), ([false], some 2)]) 2 none) := by
+  apply applyCommit_stInv
+  · apply applyCommit_stInv
+    · exact ⟨LogInv.nil KSorted.nil, by simp⟩
+    · rfl
+  · rfl
 
 end Nomt.C09
